@@ -146,6 +146,37 @@ pub fn run(tier: &str) -> i32 {
       Err(_) => {}
     }
   }
+  // an attacker with a self-consistent identity from another CA whose plug-in accepts honest peers: its messages
+  // are well-formed and correctly signed with its own key, in whichever role the GUID order gives it
+  {
+    let mut roles = std::collections::BTreeSet::new();
+    for (n, who) in [(1u8, "px"), (2, "px"), (3, "px"), (2, "py"), (3, "py"), (1, "pz"), (2, "pz"), (1, "py"), (3, "pz")] {
+      let honest = Conf::std(n, "governance_rtps_N");
+      let mut imp = Conf::std(2, "governance_rtps_N");
+      imp.cert = format!("{who}/cert.pem");
+      imp.key = format!("{who}/key.pem");
+      imp.identity_ca = "foreign/ca.cert.pem".into();
+      imp.impostor_peers_ca = Some("identity_ca.cert.pem".into());
+      match h::impostor_run(&honest, &imp) {
+        Ok((imp_replier, authenticated, secret)) => {
+          roles.insert(imp_replier);
+          if authenticated || secret {
+            rep.violation(
+              &format!("C19:foreign-ca:impostor-{}", if imp_replier { "replier" } else { "requester" }),
+              json!({"honest": n, "impostor_is_replier": imp_replier}),
+              &format!(
+                "a participant whose certificate was issued by another CA, acting as {} with correctly signed messages, was {} by honest participant p{n}",
+                if imp_replier { "replier" } else { "requester" },
+                if authenticated { "authenticated" } else { "given a shared secret" }
+              ),
+            );
+          }
+        }
+        Err(e) => rep.notes.push(format!("impostor run against p{n} did not start: {e}")),
+      }
+    }
+    rep.set("impostor_roles_exercised", json!(roles.iter().map(|r| if *r { "replier" } else { "requester" }).collect::<Vec<_>>()));
+  }
   // a CA-certified participant that presents (and signs over) participant data with a GUID not bound to its certificate
   for replier_lies in [true, false] {
     match h::lying_run(&ca, &cb, replier_lies) {
